@@ -27,8 +27,10 @@ import (
 	"errors"
 	"fmt"
 	"os"
+	"runtime/debug"
 	"sort"
 	"strings"
+	"sync"
 	"testing"
 	"time"
 
@@ -68,6 +70,8 @@ type verifMultiHistory struct {
 	ID        string           `json:"id"`
 	OnClassic bool             `json:"onClassic"`
 	Enum      bool             `json:"enum"`    // enumerate every fault position of the LAST multi step
+	Chain     bool             `json:"chain"`   // with enum: all attempts on ONE system (the context is built once; sound
+	//                                             for transactional changes, which restore every snap when they fail)
 	EnumOps   []string         `json:"enumOps"` // ... and these backend operations, for every snap
 	Steps     []verifMultiStep `json:"steps"`
 }
@@ -90,6 +94,8 @@ type verifMultiSuite struct {
 	mOpFaults []*verifMultiOpFault
 	mLens     []int // chain length per snap of the last multi request
 	mLabels   [][]string
+	mAbortMu  sync.Mutex
+	mAborted  map[string]bool // snaps with a task that was told to undo / aborted (written under the state lock)
 	mChanges  int
 	mFaults   int
 	mEvents   int
@@ -114,6 +120,14 @@ func (s *verifMultiSuite) multiInject(op *fakeOp) error {
 	}
 	for _, f := range s.mOpFaults {
 		if f.fired || f.op != op.op || verifMultiOpSnap(op) != f.snap {
+			continue
+		}
+		// only do-handlers of a lane that has not been aborted are failed (an undo handler calls the same
+		// backend operations)
+		s.mAbortMu.Lock()
+		aborted := s.mAborted[f.snap]
+		s.mAbortMu.Unlock()
+		if aborted {
 			continue
 		}
 		f.fired = true
@@ -178,6 +192,11 @@ func (s *verifMultiSuite) multiStatusChanged(t *state.Task, old, new state.Statu
 	}
 	name := s.mSnapOf[t.ID()]
 	ev := map[string]interface{}{"t": idx, "snap": name}
+	if new == state.UndoStatus || new == state.AbortStatus || new == state.UndoingStatus {
+		s.mAbortMu.Lock()
+		s.mAborted[name] = true
+		s.mAbortMu.Unlock()
+	}
 	if old == state.DefaultStatus {
 		old = state.DoStatus // a task that never had its status set reports Do
 	}
@@ -235,6 +254,9 @@ func (s *verifMultiSuite) multiRequest(op *verifMultiOp) (tss []*state.TaskSet, 
 	defer func() {
 		if r := recover(); r != nil {
 			panicked = fmt.Sprint(r)
+			if os.Getenv("VERIF_VERBOSE") != "" {
+				fmt.Printf("VERIF-MULTISNAP request panicked: %v\n%s\n", r, debug.Stack())
+			}
 		}
 	}()
 	st := s.state
@@ -267,6 +289,9 @@ func (s *verifMultiSuite) runMulti(c *check.C, op *verifMultiOp) {
 	s.clock++
 	op.Now = s.clock
 	s.mChg = nil
+	if op.Faults == nil {
+		op.Faults = []verifMultiFault{}
+	}
 	// the state every snap is in when the request is made (the trace spec adopts it: the context was built by
 	// single-snap operations that C10-C13 are about)
 	s.multiEmit(map[string]interface{}{"ev": "MCtx"}, true)
@@ -344,7 +369,7 @@ func (s *verifMultiSuite) runMulti(c *check.C, op *verifMultiOp) {
 		}
 	}
 	// tasks about snaps that were not requested, or without snap-setup (check-rerefresh)
-	var strays []string
+	strays := []string{}
 	for n, ts := range bySnap {
 		strays = append(strays, n)
 		extras = append(extras, ts...)
@@ -399,6 +424,9 @@ func (s *verifMultiSuite) runMulti(c *check.C, op *verifMultiOp) {
 	// faults (dropped when they address nothing)
 	s.mEntry = map[string]bool{}
 	s.mEntryHit = map[string]bool{}
+	s.mAbortMu.Lock()
+	s.mAborted = map[string]bool{}
+	s.mAbortMu.Unlock()
 	s.mOpFaults = nil
 	eff := []verifMultiFault{}
 	seenSnap := map[int]bool{}
@@ -486,14 +514,6 @@ func (s *verifMultiSuite) runMultiHistory(c *check.C, id string, onClassic bool,
 	}
 }
 
-func verifMultiWithFaults(steps []verifMultiStep, faults []verifMultiFault) []verifMultiStep {
-	out := append([]verifMultiStep{}, steps...)
-	last := *out[len(out)-1].Multi
-	last.Faults = faults
-	out[len(out)-1] = verifMultiStep{Multi: &last}
-	return out
-}
-
 // which task of a chain hosts a backend operation
 var verifMultiOpHost = map[string][]string{
 	"setup-snap":           {"mount-snap"},
@@ -514,7 +534,7 @@ func (s *verifMultiSuite) TestVerifMultiHistories(c *check.C) {
 	defer f.Close()
 	s.out = bufio.NewWriterSize(f, 1<<20)
 	defer s.out.Flush()
-	s.snaps = []string{"some-snap", "some-other-snap", "third-snap"}
+	s.snaps = []string{"some-snap", "some-other-snap", "snap-c"}
 
 	data, err := os.ReadFile(os.Getenv("VERIF_HISTORIES"))
 	c.Assert(err, check.IsNil)
@@ -533,19 +553,47 @@ func (s *verifMultiSuite) TestVerifMultiHistories(c *check.C) {
 			nHist++
 			continue
 		}
-		// fault-free run first: learn the chains of the last multi step
+		last := h.Steps[len(h.Steps)-1]
+		prefix := h.Steps[:len(h.Steps)-1]
+		// attempt runs the last multi step with the given faults: on a fresh system (after replaying the context),
+		// or -- chain mode -- on the system the previous attempts left
+		started := false
+		attempt := func(id string, faults []verifMultiFault) {
+			m := *last.Multi
+			m.Faults = faults
+			if !h.Chain {
+				s.runMultiHistory(c, id, h.OnClassic, append(append([]verifMultiStep{}, prefix...), verifMultiStep{Multi: &m}))
+			} else {
+				if !started {
+					s.runMultiHistory(c, id, h.OnClassic, prefix)
+					started = true
+				}
+				if s.evErr == nil && !s.abandon {
+					s.caseID = id
+					s.state.Lock()
+					s.runMulti(c, &m)
+					s.state.Unlock()
+				}
+			}
+			c.Assert(s.evErr, check.IsNil)
+			nHist++
+		}
+		// the planned faults are dropped by runMulti when they address nothing: K beyond all chains learns the lengths
 		s.mLens = nil
-		s.runMultiHistory(c, h.ID+".0", h.OnClassic, verifMultiWithFaults(h.Steps, nil))
-		c.Assert(s.evErr, check.IsNil)
-		nHist++
+		if h.Chain {
+			// a fault-free attempt would change the context: learn from the first failing attempt instead
+			attempt(h.ID+".s1k1", []verifMultiFault{{S: 1, K: 1}})
+		} else {
+			attempt(h.ID+".0", []verifMultiFault{{S: 1, K: 1000}})
+		}
 		lens := append([]int{}, s.mLens...)
 		labels := s.mLabels
 		for si, n := range lens {
 			for k := 1; k <= n; k++ {
-				s.runMultiHistory(c, fmt.Sprintf("%s.s%dk%d", h.ID, si+1, k), h.OnClassic,
-					verifMultiWithFaults(h.Steps, []verifMultiFault{{S: si + 1, K: k}}))
-				c.Assert(s.evErr, check.IsNil)
-				nHist++
+				if h.Chain && si == 0 && k == 1 {
+					continue
+				}
+				attempt(fmt.Sprintf("%s.s%dk%d", h.ID, si+1, k), []verifMultiFault{{S: si + 1, K: k}})
 			}
 			for _, opName := range h.EnumOps {
 				for k := 1; k <= n; k++ {
@@ -556,13 +604,14 @@ func (s *verifMultiSuite) TestVerifMultiHistories(c *check.C) {
 					if !host {
 						continue
 					}
-					s.runMultiHistory(c, fmt.Sprintf("%s.s%dk%d:%s", h.ID, si+1, k, opName), h.OnClassic,
-						verifMultiWithFaults(h.Steps, []verifMultiFault{{S: si + 1, K: k, Op: opName}}))
-					c.Assert(s.evErr, check.IsNil)
-					nHist++
+					attempt(fmt.Sprintf("%s.s%dk%d:%s", h.ID, si+1, k, opName), []verifMultiFault{{S: si + 1, K: k, Op: opName}})
 					break
 				}
 			}
+		}
+		if h.Chain {
+			// and once more without a fault: the change must now go through
+			attempt(h.ID+".end", nil)
 		}
 	}
 	s.out.Flush()
